@@ -16,7 +16,7 @@ THEOREMS = 'IsoTp.Props.C16'
 RULE = ('(address) Address(...) with each of the 5 value parameters in {absent, 0, max, max+1, -1, float, str} x 7 modes x {full, tx_only, '
         'rx_only, both}: pairwise-exhaustive + random (quick) / the full product (thorough); AsymmetricAddress with wrong kinds; compared '
         'with an independent validity predicate written from addressing.rst and with the extracted Coq validation (proved equivalent to the '
-        'Spec, C16_address_iff) on the integer-or-None subset; only ValueError may be raised. (params) each key in {absent, valid, boundary, '
+        'Spec, C16_address_iff) on the integer-or-None subset; only ValueError may be raised; identifiers in and around the ranges the layer warns about (0x7F4-0x7F6, 0x7FA-0x7FB), as txid and as rxid, make a working layer. (params) each key in {absent, valid, boundary, '
         'invalid value, wrong type}: all pairs + the triple tx_data_length x rate_limit_max_bitrate x rate_limit_window_size swept around the one-frame-per-window boundary for every link-layer size (with can_fd / rate_limit_enable absent, on, off) + random dictionaries, compared with a reference predicate written from the parameter '
         'documentation and with the extracted Coq Params.validate (C16_params_iff). (run) every accepted configuration is driven with '
         'payloads and random traffic: no exception may escape process(), send() raises at most ValueError.'
@@ -298,6 +298,31 @@ def run_shard(campaign, shard, nshards, seed, tier):
                     if (k // 4) % nshards != shard:
                         continue
                     check_address(part, m, mode, {x: v for x, v in kw.items() if v is not None}, ro, to, campaign)
+        # identifiers in and around the ranges reserved by ISO 15765-4 (0x7F4-0x7F6, 0x7FA-0x7FB) are accepted - the layer only warns
+        # about them: constructing a layer with such an address, and set_address(), must work
+        if shard == 0:
+            M = isotp.AddressingMode
+            for rid_ in range(0x7F2, 0x7FE):
+                for as_tx in (False, True):
+                    for mk_ in (lambda t_, r_: isotp.Address(M.Normal_11bits, txid=t_, rxid=r_),
+                                lambda t_, r_: isotp.Address(M.Extended_11bits, txid=t_, rxid=r_, target_address=1, source_address=2),
+                                lambda t_, r_: isotp.Address(M.Mixed_11bits, txid=t_, rxid=r_, address_extension=3),
+                                lambda t_, r_: isotp.AsymmetricAddress(tx_addr=isotp.Address(M.Normal_11bits, txid=t_, tx_only=True),
+                                                                       rx_addr=isotp.Address(M.Normal_11bits, rxid=r_, rx_only=True))):
+                        part.d['evaluations'] += 1
+                        t_, r_ = (rid_, 0x123) if as_tx else (0x123, rid_)
+                        try:
+                            addr_ = mk_(t_, r_)
+                            layer_ = isotp.TransportLayerLogic(rxfn=lambda: None, txfn=lambda m_: None, address=addr_, params={})
+                            layer_.set_address(addr_)
+                            layer_.send(bytes([1, 2, 3])); layer_.process()
+                            got_ = 'ok'
+                        except Exception as e:
+                            got_ = type(e).__name__
+                        part.hist('reserved_ids', got_)
+                        if got_ != 'ok':
+                            part.violation('oracle', campaign, 'C16:accepted-configuration-crashes', 'an address with txid 0x%x / rxid 0x%x (accepted by the constructor) makes '
+                                           'TransportLayerLogic(...) / set_address() / send() raise %s' % (t_, r_, got_), {'txid': t_, 'rxid': r_})
         # AsymmetricAddress kinds
         t = isotp.Address(isotp.AddressingMode.Normal_11bits, txid=1, tx_only=True)
         r = isotp.Address(isotp.AddressingMode.Normal_11bits, rxid=2, rx_only=True)
